@@ -175,7 +175,9 @@ def run_property(prop, tier="quick", seed=0, out=sys.stdout):
             continue
         scanned[cfg] = {"bodies": len(facts.bodies), "own_bodies": len(facts.own), "fact_file": os.path.relpath(fpath, VERIF),
                         # private functions that the reference table does not know were inlined into their callers before the rules ran
-                        "helpers_inlined_into_callers": sorted(set("%s <- %s" % (c_, h_) for c_, h_ in facts.spliced))}
+                        "helpers_inlined_into_callers": sorted(set("%s <- %s" % (c_, h_) for c_, h_ in facts.spliced)),
+                        # locals of a struct type the reference table does not know, taken apart into one local per field
+                        "struct_locals_split_into_fields": sorted(set("%s: %s (%s)" % t_ for t_ in facts.split_locals))}
         ctx = Ctx(facts, cfg)
         for r in rules:
             if r.configs is not None and cfg not in r.configs:
